@@ -18,6 +18,8 @@ Init == s \in {S(b, k, a) : b \in 0..MaxBudget, k \in Kinds, a \in 1..(MaxBudget
          \cup {[S(b, k, a) EXCEPT !.shared = TRUE] : b \in 0..1, k \in {"ok", "fail", "silence", "unsupapps"}, a \in 1..2}
          \* cfg: the client was told to advertise one more application, of that type, which its dictionary lacks
          \cup {[S(b, "ok", 1) EXCEPT !.cfg = c] : b \in 0..1, c \in {"acct", "auth", "vsa"}}
+         \* both: an application the dictionary supports, told to be advertised in both forms (plain and vendor-specific)
+         \cup {[S(b, k, 1) EXCEPT !.cfg = "both"] : b \in 0..1, k \in {"ok", "vsaok"}}
          \cup {[S(0, "ok", 1) EXCEPT !.redial = TRUE]}
          \* owndict: the client works with a dictionary of its own (base, credit control, a private application)
          \cup {[S(b, k, 1) EXCEPT !.cfg = "owndict"] : b \in 0..1, k \in {"privok", "defonly", "ok", "fail"}}
